@@ -89,10 +89,29 @@ Lemma fc_visit_cond c x : s_fc (sc (visit_cond c x)) = s_fc (sc x).
 Proof. destruct c; cbn [visit_cond]; rewrite ?fc_visit_lit, ?fc_visit_e; reflexivity. Qed.
 Lemma mt_visit_cond_mono c x : s_mt (sc x) = true -> s_mt (sc (visit_cond c x)) = true.
 Proof.
-  intros H. destruct c; cbn [visit_cond]; [rewrite mt_visit_lit, H; reflexivity | rewrite mt_visit_lit, H; reflexivity | apply mt_visit_e_mono; exact H].
+  intros H. destruct c; cbn [visit_cond]; try (rewrite mt_visit_lit, H; reflexivity); [apply mt_visit_e_mono; exact H|].
+  rewrite mt_visit_lit, (mt_visit_e_mono e x H). reflexivity.
 Qed.
 Lemma mt_visit_cond_throws c x : lv x -> cond_throws c = true -> s_mt (sc (visit_cond c x)) = true.
-Proof. intros Hl Hc. destruct c; try discriminate. cbn [visit_cond]. apply mt_visit_e_throws; assumption. Qed.
+Proof.
+  intros Hl Hc. destruct c; try discriminate; cbn [visit_cond cond_throws] in *; [apply mt_visit_e_throws; assumption|].
+  rewrite mt_visit_lit, (mt_visit_e_throws e x Hl Hc). reflexivity.
+Qed.
+(* what `Known(true)` means semantically (for the tests the model has) *)
+Lemma known_true_sem c : known_true c = true -> may_false c = false /\ may_true c = true.
+Proof. destruct c as [| | e | e [|] |]; try discriminate; intros _; split; reflexivity. Qed.
+
+(* the test of a do-while (with repair F) *)
+Lemma end_dowhile_test prev c x : s_end (sc (dowhile_test fx prev c x)) = s_end (sc x).
+Proof. reflexivity. Qed.
+Lemma fb_dowhile_test prev c x : s_fb (sc (dowhile_test fx prev c x)) = s_fb (sc x).
+Proof. unfold dowhile_test. cbn [fixF fx repaired set_end with_sc sc s_fb]. rewrite fb_visit_cond. reflexivity. Qed.
+Lemma fc_dowhile_test prev c x : s_fc (sc (dowhile_test fx prev c x)) = s_fc (sc x).
+Proof. unfold dowhile_test. cbn [fixF fx repaired set_end with_sc sc s_fc]. rewrite fc_visit_cond. reflexivity. Qed.
+Lemma mt_dowhile_test_mono prev c x : s_mt (sc x) = true -> s_mt (sc (dowhile_test fx prev c x)) = true.
+Proof. intros H. unfold dowhile_test. cbn [fixF fx repaired set_end with_sc sc s_mt]. apply mt_visit_cond_mono. exact H. Qed.
+Lemma mt_dowhile_test_throws prev c x : live prev = true -> cond_throws c = true -> s_mt (sc (dowhile_test fx prev c x)) = true.
+Proof. intros Hl Hc. unfold dowhile_test. cbn [fixF fx repaired set_end with_sc sc s_mt]. apply mt_visit_cond_throws; [exact Hl | exact Hc]. Qed.
 
 (* ------------------------------------------------------------------ *)
 (* child scopes *)
@@ -767,33 +786,34 @@ Qed.
 
 Lemma while_A c lo body K : okA body K -> okA (visit_whileG fx c lo body) K.
 Proof.
-  intros H x. unfold visit_whileG. destruct (H (child_enter KLoop x)) as [_ [Hc Hk]].
-  destruct (body (child_enter KLoop x)) as [[a r] lg]. cbn [g_st g_lg fst snd] in *.
-  dsplit; [|exact Hc | exact Hk]. eapply mono_trans; [apply mono_child_exit | apply mono_visit_cond].
+  intros H x. unfold visit_whileG. cbn [fixF fx repaired]. destruct (H (child_enter KLoop (visit_cond c x))) as [_ [Hc Hk]].
+  destruct (body (child_enter KLoop (visit_cond c x))) as [[a r] lg]. cbn [g_st g_lg fst snd] in *.
+  dsplit; [|exact Hc | exact Hk]. eapply mono_trans; [apply mono_visit_cond | apply mono_child_exit].
 Qed.
 
 Lemma while_B c lo body bc Rb ls :
   okB body bc Rb -> okB (visit_whileG fx c lo body) (sem_loop c CTrue ls bc) (if may_true c then Rb else []).
 Proof.
-  intros H x Hl. unfold visit_whileG.
-  destruct (H (child_enter KLoop x) (lv_child_enter KLoop _ Hl)) as [[P2 [P3 [P4 P5]]] [Hr Hf]].
-  destruct (body (child_enter KLoop x)) as [[a r] lg]. cbn [g_st g_rs g_lg fst snd] in *.
+  intros H x Hl. unfold visit_whileG. cbn [fixF fx repaired].
+  set (x0 := visit_cond c x).
+  assert (Hl0 : lv x0) by (unfold lv, x0; rewrite end_visit_cond; exact Hl).
+  destruct (H (child_enter KLoop x0) (lv_child_enter KLoop _ Hl0)) as [[P2 [P3 [P4 P5]]] [Hr Hf]].
+  destruct (body (child_enter KLoop x0)) as [[a r] lg]. cbn [g_st g_rs g_lg fst snd] in *.
   destruct (while_post_sc r c lo a) as [Efb [Efc [Emt Eend]]].
   set (a2 := while_post_r r c lo a) in *.
   dsplit.
   - split; [|dsplit].
-    + intros Hd. unfold dd in Hd. rewrite end_visit_cond, end_child_exit_loop in Hd.
-      destruct (s_end (sc a2)) as [[R T I| |]|] eqn:Ea; try (exfalso; unfold lv in Hl; rewrite live_not_dead, Hd in Hl; discriminate).
-      destruct (Eend eq_refl) as [Hk Hb]. destruct c; try discriminate.
-      rewrite cN_sem_loop. cbn [may_false may_true andb orb]. rewrite andb_false_r, orb_false_r.
+    + intros Hd. unfold dd in Hd. rewrite end_child_exit_loop in Hd.
+      destruct (s_end (sc a2)) as [[R T I| |]|] eqn:Ea; try (exfalso; unfold lv in Hl0; rewrite live_not_dead, Hd in Hl0; discriminate).
+      destruct (Eend eq_refl) as [Hk Hb]. destruct (known_true_sem c Hk) as [Hmf Hmt].
+      rewrite cN_sem_loop, Hmf, Hmt. cbn [may_false andb orb]. rewrite andb_false_r, orb_false_r.
       destruct (cB0 bc) eqn:Eb; [|reflexivity]. rewrite (P3 eq_refl) in Hb. discriminate.
     + rewrite cB0_sem_loop. discriminate.
-    + intros Hc. apply has_cont_sem_loop in Hc. rewrite fc_visit_cond, fc_child_exit, Efc, (P4 Hc). apply orb_true_r.
-    + rewrite cT_sem_loop. cbn [cond_throws andb]. rewrite andb_false_r, orb_false_r. intros Hc. apply orb_true_iff in Hc. destruct Hc as [Hc|Hc].
-      * apply mt_visit_cond_throws; [|exact Hc]. unfold lv. rewrite end_child_exit_loop.
-        destruct (s_end (sc a2)) as [[R T I| |]|] eqn:Ea; try exact Hl.
-        destruct (Eend eq_refl) as [Hk _]. destruct c; discriminate.
-      * apply andb_true_iff in Hc. destruct Hc as [_ Hc]. apply mt_visit_cond_mono. rewrite mt_child_exit, Emt, (P5 Hc). apply orb_true_r.
+    + intros Hc. apply has_cont_sem_loop in Hc. rewrite fc_child_exit, Efc, (P4 Hc). apply orb_true_r.
+    + rewrite cT_sem_loop. cbn [cond_throws andb]. rewrite andb_false_r, orb_false_r. intros Hc. rewrite mt_child_exit.
+      apply orb_true_iff in Hc. destruct Hc as [Hc|Hc].
+      * unfold x0. rewrite (mt_visit_cond_throws c x Hl Hc). reflexivity.
+      * apply andb_true_iff in Hc. destruct Hc as [_ Hc]. rewrite Emt, (P5 Hc). apply orb_true_r.
   - discriminate.
   - destruct (may_true c); [exact Hf | apply flags_ok_nil'].
 Qed.
@@ -827,9 +847,10 @@ Proof.
   intros H x. unfold visit_do_whileG. destruct (H (child_enter KLoop x)) as [_ [Hc Hk]].
   destruct (body (child_enter KLoop x)) as [[a r] lg]. cbn [g_st g_lg fst snd] in *.
   dsplit; [|exact Hc | exact Hk]. eapply mono_trans; [apply mono_child_exit|]. unfold dowhile_tail.
-  match goal with |- mono _ (visit_cond c ?y) => assert (Hm : mono (child_exit fx KLoop lo x (dowhile_post_r fx r c lo a)) y) end.
+  match goal with |- mono _ (dowhile_test _ _ c ?y) => assert (Hm : mono (child_exit fx KLoop lo x (dowhile_post_r fx r c lo a)) y) end.
   { match goal with |- mono _ (match ?o with _ => _ end) => destruct o as [e|] end; [destruct (is_forced e); [apply mono_mark | apply mono_refl] | apply mono_refl]. }
-  eapply mono_trans; [exact Hm | apply mono_visit_cond].
+  eapply mono_trans; [exact Hm|]. destruct Hm as [_ _].
+  repeat split; [rewrite fb_dowhile_test; intros Hq; exact Hq | rewrite fc_dowhile_test; intros Hq; exact Hq | apply mt_dowhile_test_mono].
 Qed.
 
 Lemma is_forced_dead e : is_forced e = true -> dead (Some e) = true.
@@ -846,7 +867,7 @@ Proof.
   destruct (dowhile_post_sc r c lo a) as [Efb [Efc [Emt [e [Ee [Hfo Hnf]]]]]]. cbv zeta in *.
   set (a2 := dowhile_post_r fx r c lo a) in *. rewrite Ee.
   rewrite (mark_val_live _ e Hl).
-  assert (HF : is_forced e = true -> cN (sem_loop CTrue c ls bc) = false /\ again ls bc && cond_throws c = false).
+  assert (HF : is_forced e = true -> cN (sem_loop CTrue c ls bc) = false /\ True).
   { intros He. rewrite cN_sem_loop. cbn [may_false may_true andb orb].
     destruct (Hfo He) as [[C1 [C2 C3]] | [C1 C2]].
     - assert (Hb : cB0 bc = false).
@@ -855,26 +876,24 @@ Proof.
       { destruct (again ls bc) eqn:Ea; [|reflexivity]. destruct (again_split _ _ Ea) as [Hn|Hc].
         - rewrite Hr in Hn; [discriminate|]. destruct r as [[R T I| |]|]; try discriminate; reflexivity.
         - rewrite (P4 Hc) in C3. discriminate. }
-      rewrite Hb, Ha. split; reflexivity.
-    - destruct c; try discriminate. cbn [may_false cond_throws]. rewrite !andb_false_r, orb_false_r.
-      split; [|reflexivity]. destruct (cB0 bc) eqn:Eb; [|reflexivity]. rewrite (P3 eq_refl) in C2. discriminate. }
+      rewrite Hb, Ha. split; [reflexivity | exact I].
+    - destruct (known_true_sem c C1) as [Hmf _]. rewrite Hmf. rewrite !andb_false_r, orb_false_r.
+      split; [|exact I]. destruct (cB0 bc) eqn:Eb; [|reflexivity]. rewrite (P3 eq_refl) in C2. discriminate. }
   assert (Hend1 : s_end (sc (child_exit fx KLoop lo x a2)) = if is_forced e then Some e else s_end (sc x)).
   { rewrite end_child_exit_loop, Ee. destruct e; reflexivity. }
   dsplit.
   - unfold dowhile_tail. split; [|dsplit].
-    + intros Hd. unfold dd in Hd. rewrite end_visit_cond in Hd. destruct (is_forced e) eqn:He; [apply HF; reflexivity|].
+    + intros Hd. unfold dd in Hd. rewrite end_dowhile_test in Hd. destruct (is_forced e) eqn:He; [apply HF; reflexivity|].
       exfalso. rewrite Hend1 in Hd. unfold lv in Hl. rewrite live_not_dead, Hd in Hl. discriminate.
     + rewrite cB0_sem_loop. discriminate.
-    + intros Hc. apply has_cont_sem_loop in Hc. rewrite fc_visit_cond.
+    + intros Hc. apply has_cont_sem_loop in Hc. rewrite fc_dowhile_test.
       assert (Hx1 : s_fc (sc (child_exit fx KLoop lo x a2)) = true) by (rewrite fc_child_exit, Efc, (P4 Hc); apply orb_true_r).
       destruct (is_forced e); [rewrite fc_mark|]; exact Hx1.
     + rewrite cT_sem_loop. cbn [cond_throws may_true andb orb]. intros Hc. apply orb_true_iff in Hc. destruct Hc as [Hc|Hc].
-      * apply mt_visit_cond_mono.
+      * apply mt_dowhile_test_mono.
         assert (Hx1 : s_mt (sc (child_exit fx KLoop lo x a2)) = true) by (rewrite mt_child_exit, Emt, (P5 Hc); apply orb_true_r).
         destruct (is_forced e); [rewrite mt_mark|]; exact Hx1.
-      * destruct (is_forced e) eqn:He; [destruct (HF eq_refl) as [_ Hz]; rewrite Hz in Hc; discriminate|].
-        apply andb_true_iff in Hc. destruct Hc as [_ Hc]. apply mt_visit_cond_throws; [|exact Hc].
-        unfold lv. rewrite Hend1. exact Hl.
+      * apply andb_true_iff in Hc. destruct Hc as [_ Hc]. apply mt_dowhile_test_throws; [exact Hl | exact Hc].
   - destruct (is_forced e) eqn:He; [|discriminate]. intros _. apply HF. reflexivity.
   - exact Hf.
 Qed.
@@ -919,7 +938,7 @@ Proof.
     rewrite cN_sem_loop. cbn [may_false]. rewrite andb_false_r, orb_false_r.
     assert (Hb0 : cB0 bc = false).
     { destruct (cB0 bc) eqn:Eb; [|reflexivity]. rewrite (P3 eq_refl) in Hb. discriminate. }
-    rewrite Hb0, andb_false_r, orb_false_r. destruct c as [[| |e]|]; try discriminate; reflexivity. }
+    rewrite Hb0, andb_false_r, orb_false_r. destruct c as [c0|]; [|reflexivity]. cbn [for_pre]. rewrite (proj1 (known_true_sem c0 Hk)). reflexivity. }
   dsplit.
   - split; [|dsplit].
     + intros Hd. apply HF. apply Eend. unfold dd in Hd. rewrite end_child_exit_loop in Hd.
